@@ -6,6 +6,27 @@ props = [json.loads(l) for l in open(os.path.join(V, "properties.jsonl"))]
 
 # id -> (technique, level text, level note, design ref)
 CLAIMS = {
+ "C01": ("bounded exhaustive enumeration of inputs (token-soup sequences, all short byte strings, numeric-attribute products, all single-byte corruptions, deep nesting) x widths 0..usize::MAX x 5 decorators x deviation-bounded configurations, each executed on the real code in watched worker processes",
+         "Every execution must return Ok or TooNarrow (CssParseError only when CSS was supplied). The explored build has debug assertions and overflow checks on, so arithmetic overflow and debug_assert failures are panics; every call runs on a worker process's 8 MiB main-thread stack with a per-call progress record, so a panic, Error::Fail, abort, SIGSEGV or watchdog expiry is attributed to the exact (input, width, configuration).",
+         "bytes* is infinite: coverage is the stated bounded families (<=2..4 soup tokens, <=6 bytes, one byte edit, nesting depth 1e3/1e4 quick, 1e5 thorough). 'Never hangs' is decided up to the watchdog.", "DESIGN.md §4 C01"),
+ "C10": ("bounded exhaustive enumeration of call histories on the staged API (render/clone/rebuild operations over a width set) and of one-shot routes x configurations, on the real code; every result compared with a memoised fresh one-shot rendering",
+         "For every document and configuration every operation sequence of length <= 3 (quick) / <= 4 (thorough) over {render_to_string(clone,w), render_to_lines(clone,w), clone tree, rebuild tree, render_coloured} with widths {0,1,3,7,20}, followed by rendering the original tree, is executed; each result must equal string_from_read at that width. All one-shot routes (lines, coloured, from_read*, parse+render, staged) must agree and repeated calls must be identical.",
+         "Histories over depth<=1 documents + table slice; routes over depth<=2 documents, widths 0..=12 / 0..=40, all deviation-1 configurations.", "DESIGN.md §4 C10"),
+ "C16": ("bounded exhaustive enumeration of decorator parameter deviations (12 string parameters x menu of non-ASCII/wide/empty values) x documents x widths on the real code with a harness-implemented TextDecorator; invariants, affix reference strings and the compositionality relation",
+         "For the ASCII base decorator and every deviation of one (thorough: two) parameters: no panic (debug assertions on), width bound, text conservation, affixes verbatim around element text (exact expected line), and C07's compositionality relation with prefixes measured by display width; plus the trivial decorator's 'nothing but document text' over the grammar incl. superscripts.",
+         "Decorator strings contain no token characters. Bounds: documents depth <=1/<=2, widths 4..=24 / 4..=80.", "DESIGN.md §4 C16"),
+ "C17": ("bounded exhaustive enumeration of CSS inputs (all token sequences up to length 4/5 over a 30-token alphabet, every truncation of valid sheets, extreme nth-child coefficients) through all four CSS entry routes, and of (sheet, syntax rewrite) pairs compared by a relation between two executions",
+         "Totality: every enumerated string must give Ok or CssParseError (and leave the document's text unchanged when it sits in <style> or a style attribute), each call watched for hangs. Equivalence: every rule set of 1..2 (thorough 3) rules in 27 syntactic spellings (minified, commented, semicolon variants, unknown properties/at-rules/unparsable rule sets around, case) must style the document identically (rich line output) through add_css, add_agent_css and <style>.",
+         "The alphabet cannot spell display/content/white-space declarations.", "DESIGN.md §4 C17"),
+ "C18": ("bounded exhaustive enumeration of (document, hidden element, way of hiding) x widths; relation between two executions of the real code (hidden by CSS vs subtree deleted from the DOM)",
+         "Every element of every valid grammar document is hidden in turn through 5 (quick) / 8 (thorough) mechanisms (class/id/descendant selectors in user, agent or document sheets, inline display:none, height/overflow idiom); the rendering must equal that of the document with the subtree replaced by an empty comment (string output, and rich lines incl. fragment markers); with document CSS off, style elements and attributes must have no effect.",
+         "Single hidden element per case; grammar depth <=2 quick / <=3 thorough.", "DESIGN.md §4 C18"),
+ "C19": ("complete enumeration of declaration tuples (origin x importance x specificity class x source order, length 2..3/4) and of small sheets on an ancestor chain, on the real code, compared with a reference cascade",
+         "All ordered tuples of 2..3 (thorough 4) declarations from the 32-element product {agent,user,author,inline} x {normal,!important} x 5 specificity classes on one element, for color and background-color, same-origin declarations in one sheet and split over two; plus all sheets of <= 3 (thorough 4) colour rules over 7 selectors on a three-deep chain: the annotation of each token must equal the reference cascade's winner on the nearest enclosing element with a declaration.",
+         "Reference cascade is a 15-line lexicographic rank.", "DESIGN.md §4 C19"),
+ "C20": ("complete enumeration of selectors (compounds x combinators up to 3/4 steps, selector lists, all :nth-child(an+b) for a,b in -5..=5 on sibling lists of 0..8) x documents on the real code, compared with an independent reference matcher over the oracle DOM",
+         "For every selector the set of coloured token letters must equal the set computed by a 40-line right-to-left reference matcher with explicit ancestor search over the harness's own DOM; documents have nesting to depth 5, repeated classes on ancestor chains, and text/comment nodes between element siblings.",
+         "Known finding KF-C20-1 (style on tbody/thead/tfoot dropped) recognised by a fixed classifier.", "DESIGN.md §4 C20"),
  "C08": ("complete enumeration of link placements (containers x link contents, up to 3/4 links) x widths x footnote configurations on the real code; references and footnote list compared with reference numbering derived from the oracle DOM",
          "Every document of 0..3 (quick) / 0..4 (thorough) links, each in one of 8 containers with one of 6 contents, is rendered with footnotes on and off under plain, trivial and rich decorators; the trailing list must be exactly '[k]: target' of the k-th link with content, the references 1..n must follow their link texts in document order, and nothing of the sort may appear when disabled.",
          "Targets are short so footnote lines do not wrap; inside side-by-side table rows only the multiset of references is compared. Known finding KF-C08-1 (deeply empty link) recognised by a fixed classifier.", "DESIGN.md §4 C08"),
@@ -73,7 +94,7 @@ m = {
    "guard": "html2text_verif",
    "enable": "none needed: every check drives the public API of the unmodified crate (built from /repo's working tree with features=[css], debug-assertions and overflow-checks on)",
    "baseline_off_cmd": "cd /repo && cargo test --workspace --no-fail-fast --offline",
-   "source_commits": [],
+   "source_commits": [],  # no hooks: public API only
    "add_only": True,
  },
  "engines": [{"name": "h2tmc", "path": "/verif/harness", "serves_properties": [c["property_id"] for c in checks],
